@@ -305,7 +305,7 @@ fn deep_nesting() -> impl Strategy<Value = RandCase> {
 }
 
 pub fn run_check(ctx: &Ctx) {
-    ctx.set_rule("all operator sequences over + - * / ^ up to the stated length x all binary tree shapes (Catalan), operands from fixed pools, each AST rendered in 32 ways (minimal / full / two redundant parenthesisations x 8 blank layouts incl. no blanks where allowed, double blanks, tabs, leading/trailing blanks; the random layouts spell the power operator `**` half of the time); plus `to`/round/floor/ceil variants (also with three-digit digits arguments), random deeper trees long flat expressions of 30-130 terms mixing calls and parenthesised groups, and expressions nested 20-150 levels deep in parentheses and calls; oracle = reference evaluation of the AST; non-trivial = operators of >=2 precedence levels, or a grouped right operand, or nested parentheses, or a non-canonical rendering; distinct by query text");
+    ctx.set_rule("all operator sequences over + - * / ^ up to the stated length x all binary tree shapes (Catalan), operands from fixed pools, each AST rendered in 32 ways (minimal / full / two redundant parenthesisations x 8 blank layouts incl. no blanks where allowed, double blanks, tabs, leading/trailing blanks; the random layouts spell the power operator `**` half of the time); plus `to`/round/floor/ceil variants (also with three-digit digits arguments), random deeper trees long flat expressions of 30-130 terms mixing calls and parenthesised groups, expressions nested 20-150 levels deep in parentheses and calls, and expressions with one gap of 2^16 or more blanks; oracle = reference evaluation of the AST; non-trivial = operators of >=2 precedence levels, or a grouped right operand, or nested parentheses, or a non-canonical rendering; distinct by query text");
     ctx.assume("blank policy: + - and `to` always have a blank on both sides; no blank is omitted next to a unit or phrase (a blank next to * or / ends a unit expression in this grammar)");
     let corpus: Vec<(String, QCase)> = load_corpus("C06");
     let cases: Vec<QCase> = corpus.into_iter().map(|c| c.1).collect();
@@ -378,6 +378,33 @@ pub fn run_check(ctx: &Ctx) {
             None => Value::Null,
         },
     );
+    // a run of 2^16 blanks and more in one gap (spaces, tabs, mixed): "the number of blanks does not matter"
+    {
+        let mut cases: Vec<QCase> = Vec::new();
+        for (k, a) in [3u64, 17, 101, 977, 4242].iter().enumerate() {
+            let (e, _) = ast_for(3, *a);
+            if let Some(base) = make_case(&e, 0, 0) {
+                let gaps: Vec<usize> = base.query.char_indices().filter(|(_, c)| *c == ' ').map(|(i, _)| i).collect();
+                for (j, n) in [65_536usize, 65_537, 70_000].iter().enumerate() {
+                    if gaps.is_empty() {
+                        continue;
+                    }
+                    let at = gaps[(k + j) % gaps.len()];
+                    let run = match (k + j) % 3 {
+                        0 => " ".repeat(*n),
+                        1 => "\t".repeat(*n),
+                        _ => " \t".repeat(n / 2 + 1),
+                    };
+                    let mut c = base.clone();
+                    c.query = format!("{}{}{}", &base.query[..at], run, &base.query[at + 1..]);
+                    c.nontrivial = true;
+                    c.classes.push("gap-of-65536-or-more-blanks".to_string());
+                    cases.push(c);
+                }
+            }
+        }
+        ctx.run_list("huge-blank-runs", &cases, |c| judge(shared_db(), c), |c| to_json(c));
+    }
     ctx.run_gen(
         "deep-nesting",
         deep_nesting,
